@@ -105,7 +105,7 @@ let exec (toks : string list) : string list =
     let t = L.find (fun t -> S.length t > S.length p && S.sub t 0 (S.length p) = p) cfg in
     S.sub t (S.length p) (S.length t - S.length p) in
   let fmt = get "fmt" and ty = get "ty" and k = get "k" in
-  let big = L.mem "big=1" cfg in
+  let _big = L.mem "big=1" cfg in   (* big histories are no longer cut short: write() cannot fail with WriteOutOfBounds since the repair *)
   let w = width_of ty in
   let wn = nat_of_int w in
   let s = ref (w_init (n_of_string k)) in
@@ -117,7 +117,7 @@ let exec (toks : string list) : string list =
       L.iter (fun o -> let (s', r') = w_step wn !s o in s := s'; r := r') os;
       out := obs fmt w !nstep tok !r !s :: !out;
       incr nstep;
-      (match !r with RPanic -> stop := true | RErr EWriteOutOfBounds when big -> stop := true | _ -> ());
+      (match !r with RPanic -> stop := true | _ -> ());
       if Z.gt (z_of_n (rlen !s)) (Z.of_int 4096) then stop := true
     end) ops;
   L.rev !out
